@@ -3142,11 +3142,30 @@ func (b *Bundle) Compile(log logger.Log, timer *helpers.Timer, mangleCache map[s
 				if keyPath.Namespace == "file" {
 					absPathKey := canonicalFileSystemPathForWindows(keyPath.Text)
 					sourceAbsPaths[absPathKey] = sourceIndex
+
+					// Input paths may still contain symlinks when they are preserved
+					if options.PreserveSymlinks {
+						if realPath, ok := b.fs.EvalSymlinks(keyPath.Text); ok {
+							sourceAbsPaths[canonicalFileSystemPathForWindows(realPath)] = sourceIndex
+						}
+					}
 				}
 			}
 			for _, outputFile := range outputFiles {
 				absPathKey := canonicalFileSystemPathForWindows(outputFile.AbsPath)
-				if sourceIndex, ok := sourceAbsPaths[absPathKey]; ok {
+				sourceIndex, ok := sourceAbsPaths[absPathKey]
+
+				// The output path may reach an input file through a symlink
+				if !ok {
+					if realPath, isReal := b.fs.EvalSymlinks(outputFile.AbsPath); isReal {
+						sourceIndex, ok = sourceAbsPaths[canonicalFileSystemPathForWindows(realPath)]
+					} else if realDir, isReal := b.fs.EvalSymlinks(b.fs.Dir(outputFile.AbsPath)); isReal {
+						realPath := b.fs.Join(realDir, b.fs.Base(outputFile.AbsPath))
+						sourceIndex, ok = sourceAbsPaths[canonicalFileSystemPathForWindows(realPath)]
+					}
+				}
+
+				if ok {
 					hint := ""
 					switch logger.API {
 					case logger.CLIAPI:
